@@ -296,7 +296,14 @@ class Strategy:
                 raise AnalysisError(f"store at {e.loc()} is not inside the recognised (interval, sample) range loop nest")
             kctx, ictx = loops
             mapping = {_atom(kctx.sym): self.k, _atom(ictx.sym): self.i}
-            sf = StoreFact(e, sym.subst(ictx.lo, mapping), sym.subst(ictx.hi, mapping), sym.subst(idx.r, mapping),
+            ilo, ihi = ictx.lo, ictx.hi
+            # the sample loop may count something else than the sample number (e.g. the flat index k*n + i): it is re-parametrised by the
+            # sample number i = flat index - k*n when the two differ by a shift that does not depend on the loop variable
+            shift = sym.subst(idx.r, {_atom(kctx.sym): self.k}) - (self.k * self.n + ictx.sym)
+            if not shift.is_zero() and _atom(ictx.sym) not in set(sym.all_atoms(shift)):
+                mapping[_atom(ictx.sym)] = self.i - shift
+                ilo, ihi = ictx.lo + shift, ictx.hi + shift
+            sf = StoreFact(e, sym.subst(ilo, mapping), sym.subst(ihi, mapping), sym.subst(idx.r, mapping),
                            sym.subst(vnum.r, mapping), strip_state(e.data['base']), sym.subst(kctx.lo, mapping),
                            sym.subst(kctx.hi, mapping), tuple(g.subst(lambda r: sym.subst(r, mapping)) for g in e.guard))
             self.stores.append(sf)
